@@ -482,7 +482,7 @@ func init() {
 	fw.Register(&fw.Property{
 		ID:     "C20",
 		Run:    runC20,
-		Rule:   "exhaustive table: 192 Go functions per package (context yes/no x fixed parameters {none, M, I, S, *Atom, MM, IS, AM} x variadic {none, ...MalType, ...int} x results {none, error, (MalType,error), (int,error)}) in two packages (import path with and without a dot) x declared bounds {none, (min), (min,max)} with 0<=min<=max<=fixed+3 x entry points Call and CallOverrideFN; for every argument count 0..max+2: the all-assignable tuple in 4 behaviours (return value, return error, panic(error), panic(value)) and every single-position substitution by each of 8 argument kinds (nil, int, string, keyword, list, vector, map, atom); entry monitors record whether and with what the function was entered; results, errors (errors.Is, ErrorValue), catchability through try/catch, context injection and the registered name are compared with the contract; distinct = distinct (signature, package, bounds, entry point) configurations",
+		Rule:   "exhaustive table: 192 Go functions per package (context yes/no x fixed parameters {none, M, I, S, *Atom, MM, IS, AM} x variadic {none, ...MalType, ...int} x results {none, error, (MalType,error), (int,error)}) in two packages (import path with and without a dot) x declared bounds {none, (min), (min,max)} with 0<=min<=max<=fixed+3 x entry points Call and CallOverrideFN; for every argument count 0..max+2: the all-assignable tuple in 4 behaviours (return value, return error, panic(error), panic(value)) and every single-position substitution by each of 8 argument kinds (nil, int, string, keyword, list, vector, map, atom); entry monitors record whether and with what the function was entered; results, errors (errors.Is, ErrorValue), catchability through try/catch, context injection and the registered name are compared with the contract; distinct = distinct (signature, package, bounds, entry point) configurations; function identity: closures of one literal and method values of one method (with/without context, variadic, declared bounds) registered as the same lisp name in three environments, re-registered in one, registered in reverse order: every call must enter exactly the value registered there",
 		Assume: []string{"declared bounds count lisp arguments (the context parameter is not an argument)", "nil given to a pointer parameter is left unspecified", "declarations the binder rejects by design (bounds on a non-variadic function, more than two results) are not generated"},
 		Level:  "exploration",
 		Finish: func(m *fw.Merged) {
